@@ -12,13 +12,16 @@ class C07(ChanSpec):
     level_text = ("Lean 4 theorems over the handler-list model extended with panicking handlers and the recover points of channel.invokeMethod, handlerContext.Write/Trigger and the tail handler: "
                   "for every pipeline, every handler position, event kind, entry point and panic value the outcome is never 'escaped'; while the channel is open the panic value (the error itself "
                   "when it is one) is delivered exactly once to the chain of exception handlers in pipeline order up to the first that does not forward; the channel is closed with it iff it "
-                  "reaches the tail or is a non-timeout net.Error, and stays usable otherwise; on an already closed channel the recovered panic is dropped. Tie: differential runs on the real "
+                  "reaches the tail or is a non-timeout net.Error, and stays usable otherwise; on an already closed channel the recovered panic is dropped; when an exception handler on the chain answers an exception with Channel.Write / "
+                  "Channel.Trigger and that delivery panics, both exceptions are delivered exactly once each to the whole chain in pipeline order (C07_nested_panic_each_delivered_once). Tie: differential runs on the real "
                   "pipeline/channel with probe handlers of all interface subsets panicking with error / string / timeout and non-timeout net.Error values at every kind and entry point "
                   "(Channel.Write, Channel.Trigger, read-loop invoke, ctx.Write, ctx.Trigger), with a failing transport under the head handler and on closed channels. The sender half "
                   "(a failing transport write in the background sender closes the channel) runs over the Chan LTS with injected write failures under the schedule controller.")
-    level_note = C01.level_note + " Exception handlers are assumed not to panic (the property's proviso); the idle-timer callback entry point is C20's; re-entrant handler programs are not generated."
+    level_note = C01.level_note + " Exception handlers are assumed not to panic (the property's proviso); the idle-timer callback entry point is C20's; re-entrant handler programs: one exception handler that answers with Channel.Write / Channel.Trigger, once per invocation."
     rule = ("pipeline part: 1-5 probe handlers (random interface subsets, forwarding masks, panic masks over the five non-exception kinds, 4 panic value kinds) plus an inactive-observing sink; "
-            "one injection per case through one of 6 entry points, 1/4 with a failing transport under the head, 1/6 on a closed channel; sender part: C05-style controlled scenarios with the "
+            "one injection per case through one of 6 entry points, 1/4 with a failing transport under the head, 1/6 on a closed channel; second generator: 1-3 invocations on the same channel for as long "
+            "as it stays open (a call that does not return within 3 s is a hang), 2/3 with one exception handler that answers its first exception of the invocation by Channel.Write / "
+            "Channel.Trigger (whose delivery may panic: a second exception while the first is travelling), the whole ordered trace of handler invocations compared with invokeR / ctxInvokeR; sender part: C05-style controlled scenarios with the "
             "k-th transport write failing; non-trivial = case in which some handler panicked or the head failed; distinct by full line")
     assumptions = ("exception handlers do not panic",)
     modelled_not_verified = ("Go panic/recover/defer semantics", "errors.As / net.Error classification")
@@ -45,6 +48,8 @@ class C07(ChanSpec):
         t = line.split()
         if t[1] == "invoke":
             return "val=none" not in line
+        if t[1] == "ninvoke":
+            return "exception" in answer
         return t[1] == "end"
 
     def signature(self, line, answer):
@@ -55,6 +60,10 @@ class C07(ChanSpec):
         inv = [l.split() for l, a in pairs if l.split()[1] == "invoke"]
         d["input_distribution"]["pipeline_entries"] = dict(collections.Counter(t[2] for t in inv))
         d["input_distribution"]["panics_routed"] = sum(1 for t in inv if not any(x == "val=none" for x in t))
+        ninv = [(l.split(), a) for l, a in pairs if l.split()[1] == "ninvoke"]
+        d["input_distribution"]["sequence_invocations"] = len(ninv)
+        d["input_distribution"]["sequence_exceptions"] = sum(1 for t, a in ninv if "exception" in a)
+        d["input_distribution"]["nested_exceptions"] = sum(1 for t, a in ninv if "nested-exception" in a)
         d["input_distribution"]["closed_by_exception"] = sum(1 for t in inv if any(x.startswith("closed=") and x != "closed=none" for x in t))
         return d
 
